@@ -263,6 +263,7 @@ func (eval Evaluator[T]) EvaluatePolynomialVectorFromPowerBasis(targetLevel int,
 
 	// Retrieve the degree of the highest degree non-zero coefficient
 	// TODO: optimize for nil/zero coefficients
+	// (for an even polynomial reduced to its constant term this value is -1)
 	minimumDegreeNonZeroCoefficient := len(pol.Value[0].Coeffs) - 1
 	if even && !odd {
 		minimumDegreeNonZeroCoefficient--
@@ -281,7 +282,7 @@ func (eval Evaluator[T]) EvaluatePolynomialVectorFromPowerBasis(targetLevel int,
 	if mapping != nil {
 
 		// If the degree of the poly is zero
-		if minimumDegreeNonZeroCoefficient == 0 {
+		if minimumDegreeNonZeroCoefficient <= 0 {
 
 			// Allocates the output ciphertext
 			res = rlwe.NewCiphertext(params, 1, targetLevel)
@@ -320,7 +321,7 @@ func (eval Evaluator[T]) EvaluatePolynomialVectorFromPowerBasis(targetLevel int,
 
 	} else {
 
-		if minimumDegreeNonZeroCoefficient == 0 {
+		if minimumDegreeNonZeroCoefficient <= 0 {
 
 			res = rlwe.NewCiphertext(params, 1, targetLevel)
 			*res.MetaData = *X[1].MetaData
